@@ -19,6 +19,7 @@ def Q.dequeue (q : Q α) : Q α × Option α :=
 def Q.peek (q : Q α) : Option α := q.head?
 def Q.contains (eq : α → α → Bool) (q : Q α) (v : α) : Bool := q.any (fun x => eq x v)
 def Q.size (q : Q α) : Int := q.length
+def Q.isEmpty (q : Q α) : Bool := List.isEmpty q
 
 abbrev S (α : Type) := List α
 def S.push (s : S α) (v : α) : S α := v :: s
@@ -29,6 +30,7 @@ def S.pop (s : S α) : S α × Option α :=
 def S.peek (s : S α) : Option α := s.head?
 def S.contains (eq : α → α → Bool) (s : S α) (v : α) : Bool := s.any (fun x => eq x v)
 def S.size (s : S α) : Int := s.length
+def S.isEmpty (s : S α) : Bool := List.isEmpty s
 
 structure SQ (α : Type) where
   all : List α := []
@@ -44,6 +46,9 @@ def SQ.peek (q : SQ α) : Option (α × Int) :=
   | some v => some (v, q.front)
   | none => none
 def SQ.size (q : SQ α) : Int := q.all.length - q.front
+def SQ.isEmpty (q : SQ α) : Bool := decide (q.all.length ≤ q.front)
+/-- `Values()`: every value ever enqueued, in enqueue order (dequeued ones included). -/
+def SQ.values (q : SQ α) : List α := q.all
 def SQ.contains (eq : α → α → Bool) (q : SQ α) (v : α) : Int :=
   match q.all.findIdx? (fun x => eq x v) with
   | some i => i
